@@ -551,3 +551,235 @@ func (v *Verifier) globalsInitOnly(cfg PropConfig, sc StructuralCheck) []StructR
 	}
 	return out
 }
+
+// fieldConstWrites (C01): which constant each function may store into a field (the status of the session). The
+// session is marked failed or completed only where the code has dealt with the runs first (failSession; the end of
+// the main loop) - a new assignment of such a value elsewhere is a shortcut around that. For every store to the field:
+// the storing function must be listed, and the stored value must be one of the constants listed for it ("*": any).
+// A function listed with k sites for a constant must not have more stores of that constant ("failed:1").
+func (v *Verifier) fieldConstWrites(cfg PropConfig, sc StructuralCheck) []StructResult {
+	var a struct {
+		Field   string              `json:"field"`
+		Allowed map[string][]string `json:"allowed"` // function -> ["const" | "const:maxsites" | "*"]
+	}
+	json.Unmarshal(sc.Args, &a)
+	i := strings.Index(a.Field, "::")
+	t, err := v.ResolveType(a.Field[:i], nil)
+	if err != nil {
+		engineErr("structural %s: %v", sc.Name, err)
+	}
+	fname := a.Field[i+2:]
+	st, ok := t.Underlying().(*types.Struct)
+	if !ok {
+		engineErr("structural %s: not a struct", sc.Name)
+	}
+	var bad []string
+	n := 0
+	count := map[string]int{}
+	for _, fn := range v.moduleFunctions(false) {
+		k := shortKey(fn)
+		for _, b := range fn.Blocks {
+			for _, in := range b.Instrs {
+				s, ok := in.(*ssa.Store)
+				if !ok {
+					continue
+				}
+				fa, ok := s.Addr.(*ssa.FieldAddr)
+				if !ok {
+					continue
+				}
+				pt, ok := fa.X.Type().Underlying().(*types.Pointer)
+				if !ok || !types.Identical(pt.Elem(), t) || st.Field(fa.Field).Name() != fname {
+					continue
+				}
+				n++
+				allowed, listed := a.Allowed[k]
+				if !listed {
+					bad = append(bad, fmt.Sprintf("%s assigns it (%s)", k, v.prog.Fset.Position(s.Pos())))
+					continue
+				}
+				val := "a non-constant value"
+				if c, isC := s.Val.(*ssa.Const); isC && c.Value != nil {
+					val = strings.Trim(c.Value.ExactString(), "\"")
+				}
+				okV := false
+				for _, al := range allowed {
+					name, max := al, 0
+					if j := strings.Index(al, ":"); j > 0 {
+						name = al[:j]
+						fmt.Sscan(al[j+1:], &max)
+					}
+					if name == "*" || name == val {
+						count[k+"/"+name]++
+						if max == 0 || count[k+"/"+name] <= max {
+							okV = true
+						} else {
+							bad = append(bad, fmt.Sprintf("%s assigns %q at more sites than the %d known (%s)", k, val, max, v.prog.Fset.Position(s.Pos())))
+							okV = true
+						}
+					}
+				}
+				if !okV {
+					bad = append(bad, fmt.Sprintf("%s assigns %q, which it is not listed for (%s)", k, val, v.prog.Fset.Position(s.Pos())))
+				}
+			}
+		}
+	}
+	sort.Strings(bad)
+	return []StructResult{{Name: fmt.Sprintf("%s/structural/field_const_writes[%s]", cfg.ID, sc.Name), Kind: "frame",
+		Text: fmt.Sprintf("every assignment of %s is in a listed function and stores a value listed for it", a.Field), Detail: fmt.Sprintf("%d stores; %s", n, strings.Join(uniq(bad), "; ")), OK: len(bad) == 0 && n > 0}}
+}
+
+// mutatorOnFresh (C08, "results never depend on incidental process state"): a mutating method (types' SetDeprecated)
+// may only be called on a value the calling function has just made - an allocation of its own, or the result of a
+// function all of whose returns are such values (checked recursively, through interface conversions and phis; nil is
+// fine). Handing back a shared package-level value from one of those functions (an "avoid the allocation"
+// optimisation) would let the mutation leak into every later execution of the process.
+func (v *Verifier) mutatorOnFresh(cfg PropConfig, sc StructuralCheck) []StructResult {
+	var a struct {
+		Method string `json:"method"`
+	}
+	json.Unmarshal(sc.Args, &a)
+	memo := map[*ssa.Function]int{} // 1 fresh-returning, 2 not, 3 in progress
+	why := map[*ssa.Function]string{}
+	var freshVal func(x ssa.Value, depth int) (bool, string)
+	var freshRet func(fn *ssa.Function, depth int) bool
+	freshRet = func(fn *ssa.Function, depth int) bool {
+		if m := memo[fn]; m == 1 || m == 3 {
+			return true
+		} else if m == 2 {
+			return false
+		}
+		if len(fn.Blocks) == 0 || depth > 24 {
+			memo[fn] = 2
+			why[fn] = "no body / too deep"
+			return false
+		}
+		memo[fn] = 3
+		for _, b := range fn.Blocks {
+			for _, in := range b.Instrs {
+				r, ok := in.(*ssa.Return)
+				if !ok || len(r.Results) == 0 {
+					continue
+				}
+				if ok2, w := freshVal(r.Results[0], depth+1); !ok2 {
+					memo[fn] = 2
+					why[fn] = fmt.Sprintf("%s returns %s (%s)", shortKey(fn), w, v.prog.Fset.Position(r.Pos()))
+					return false
+				}
+			}
+		}
+		memo[fn] = 1
+		return true
+	}
+	freshVal = func(x ssa.Value, depth int) (bool, string) {
+		for {
+			switch y := x.(type) {
+			case *ssa.MakeInterface:
+				x = y.X
+				continue
+			case *ssa.ChangeInterface:
+				x = y.X
+				continue
+			case *ssa.ChangeType:
+				x = y.X
+				continue
+			}
+			break
+		}
+		switch y := x.(type) {
+		case *ssa.Alloc:
+			return true, ""
+		case *ssa.Const:
+			if y.Value == nil {
+				return true, ""
+			}
+			return false, "a constant"
+		case *ssa.Phi:
+			for _, e := range y.Edges {
+				if ok, w := freshVal(e, depth+1); !ok {
+					return false, w
+				}
+			}
+			return true, ""
+		case *ssa.Call:
+			if c := y.Call.StaticCallee(); c != nil {
+				if freshRet(c, depth+1) {
+					return true, ""
+				}
+				return false, "the result of " + shortKey(c) + ", which may hand back an existing object: " + why[c]
+			}
+			return false, "the result of a dynamic call"
+		case *ssa.UnOp:
+			if g, ok := y.X.(*ssa.Global); ok {
+				return false, "the package-level value " + g.Name()
+			}
+			// a local cell assigned fresh values only
+			if freshValue(y, map[ssa.Value]bool{}) {
+				return true, ""
+			}
+			if al, ok := y.X.(*ssa.Alloc); ok && al.Referrers() != nil {
+				all := true
+				w := ""
+				for _, ref := range *al.Referrers() {
+					if st, ok := ref.(*ssa.Store); ok && st.Addr == ssa.Value(al) {
+						if ok2, w2 := freshVal(st.Val, depth+1); !ok2 {
+							all, w = false, w2
+						}
+					}
+				}
+				if all {
+					return true, ""
+				}
+				return false, w
+			}
+			return false, "a value loaded from memory"
+		case *ssa.Parameter:
+			return false, "its parameter " + y.Name()
+		}
+		return false, fmt.Sprintf("a value of form %T", x)
+	}
+	var out []StructResult
+	n := 0
+	for _, fn := range v.moduleFunctions(false) {
+		if fn.Synthetic != "" {
+			continue
+		}
+		k := 0
+		for _, b := range fn.Blocks {
+			for _, in := range b.Instrs {
+				ci, ok := in.(ssa.CallInstruction)
+				if !ok {
+					continue
+				}
+				cc := ci.Common()
+				var recv ssa.Value
+				switch {
+				case cc.IsInvoke() && cc.Method.Name() == a.Method:
+					recv = cc.Value
+				case cc.StaticCallee() != nil && cc.StaticCallee().Name() == a.Method && cc.StaticCallee().Signature.Recv() != nil && len(cc.Args) > 0:
+					recv = cc.Args[0]
+				default:
+					continue
+				}
+				// promoted method through an embedded struct: the receiver is the address of the embedded field of the object
+				if fa, ok := recv.(*ssa.FieldAddr); ok {
+					recv = fa.X
+				}
+				n++
+				k++
+				okV, w := freshVal(recv, 0)
+				key := shortKey(fn)
+				if key == "" && fn.Parent() != nil {
+					key = shortKey(fn.Parent()) + "$closure"
+				}
+				out = append(out, StructResult{Name: fmt.Sprintf("%s/structural/mutator_on_fresh[%s:%s#%d]", cfg.ID, a.Method, key, k), Kind: "ownership",
+					Text: fmt.Sprintf("%s at %s is called on a value made for this call", a.Method, v.prog.Fset.Position(in.Pos())), OK: okV, Detail: w})
+			}
+		}
+	}
+	if n == 0 {
+		out = append(out, StructResult{Name: fmt.Sprintf("%s/structural/mutator_on_fresh[%s:none]", cfg.ID, a.Method), Kind: "ownership", Text: "calls of the mutator exist", OK: false, Detail: "no call found (renamed?)"})
+	}
+	return out
+}
